@@ -139,17 +139,18 @@ func (s *verifFaultServer) serve(c net.Conn, i int, sc verifTCPAttempt, o *verif
 }
 
 type verifTransportCase struct {
-	Name   string            `json:"name"`
-	Size   int               `json:"size"`
-	First  int               `json:"first"` // bytes written before the gate
-	Gated  bool              `json:"gated"` // hold the rest of the body back until attempt 2 has started
-	Script []verifTCPAttempt `json:"script"`
+	Name     string            `json:"name"`
+	Size     int               `json:"size"`
+	First    int               `json:"first"` // bytes written before the gate
+	Gated    bool              `json:"gated"` // hold the rest of the body back until attempt 2 has started
+	Script   []verifTCPAttempt `json:"script"`
+	MaxConns int               `json:"max_conns_per_host,omitempty"` // the client's transport allows this many connections per host (0 = no limit)
 }
 
 func verifRunTransport(out *verifOut, tc verifTransportCase) {
 	srv := newVerifFaultServer(tc.Script)
 	defer srv.ln.Close()
-	tr := &http.Transport{}
+	tr := &http.Transport{MaxConnsPerHost: tc.MaxConns}
 	defer tr.CloseIdleConnections()
 	client := &http.Client{Transport: tr, Timeout: 20 * time.Second}
 	req, _ := http.NewRequest("GET", "http://backend.invalid/x", nil)
@@ -235,6 +236,14 @@ func TestVerifC06Transport(t *testing.T) {
 			verifTransportCase{Name: "all-fail", Size: size, First: 2, Script: []verifTCPAttempt{f500, f500, f500, f500}},
 			verifTransportCase{Name: "close-before-read-then-ok", Size: size, First: size, Script: []verifTCPAttempt{{When: "close0"}, ok}},
 			verifTransportCase{Name: "close-mid-body-then-ok", Size: size, First: size, Script: []verifTCPAttempt{{When: "closeN", N: size / 2}, ok}},
+		)
+	}
+	// a client whose transport is limited to one connection per host (a proxy-facing client configured for a small pool): a
+	// failed attempt must give its connection back before the next one starts
+	for _, size := range []int{10, 3000} {
+		cases = append(cases,
+			verifTransportCase{Name: "500-after-body-then-ok/one-connection-per-host", Size: size, First: size, MaxConns: 1, Script: []verifTCPAttempt{f500, ok}},
+			verifTransportCase{Name: "all-fail/one-connection-per-host", Size: size, First: size, MaxConns: 1, Script: []verifTCPAttempt{f500, f500, f500, f500}},
 		)
 	}
 	// every attempt is refused while the handler still has most of its body to write: the handler must not stay blocked
